@@ -24,6 +24,8 @@ ENGINES = [
     {"name": "core", "path": "lib/eng_core.py", "serves_properties": ["C01", "C06", "C07", "C08", "C15", "C19", "C24", "C25"],
      "kind_free_text": "Mv2Core TLA+ specification; harness `mvh core-run` executes abstract histories on the real Memvid and logs the projected abstract state; Trace_Mv2Core validates every call; MC_Mv2Core is model-checked and used as scenario generator"},
 ]
+ENGINES.append({"name": "lock", "path": "lib/eng_lock.py", "serves_properties": ["C17"],
+                "kind_free_text": "Mv2Lock TLA+ model (processes, inodes, flock table, copy-and-rename commit) checked exhaustively; transition tour + random schedules stepped on real handles with an independent flock probe; recordings validated by TLC (Trace_Mv2Lock)"})
 NOT_YET = "check not built yet in this revision of the machinery (see DESIGN.md §12 for the build order)"
 NOT_APPLICABLE = {
     "C30": "pure encode/decode fidelity of byte layouts (bincode TOC, header, footer, time index): a TLA+ model would have to re-implement the codecs; outside what state-machine specification decides (DESIGN.md §7)",
@@ -42,6 +44,13 @@ CLAIMED = {
     "C19": _core("The directory listing is logged after every call (successful or failing) of every history and must be exactly the one .mv2 file."),
     "C24": _core("Capacity: CapacityExceeded results and the payload end after every commit are compared with the specification's capacity rule; histories with tickets granting a few KB above the data start and stored-plain payloads of boundary sizes."),
     "C25": _core("Ticket sequence and capacity are logged after every call; apply_ticket with increasing, equal and decreasing sequence numbers, also across reopen, must behave as ApplyTicket (TicketMonotone is model-checked).", "Signed tickets are not covered by this check yet."),
+    "C17": {
+        "engine": "lock",
+        "technique": "TLA+ model of writers/inodes/flock (Mv2Lock) exhaustively checked by TLC; transition tour and seeded schedules stepped on real handles; recordings validated by TLC against the model (trace validation)",
+        "text": "TLC explores every interleaving of two processes opening, putting, committing (stage + rename as separate steps), running doctor and closing one path, and checks AtMostOneWriter, WriterHoldsNameLock and NoLostCommit in every state. Every transition of that graph is covered by schedules stepped on real Memvid handles; after each call an independent non-blocking flock probe (same process and another process), the number of writable handles and each handle's frame counts are recorded and TLC must find an action of the model that explains them. A second writable open that succeeds, a free probe while a writer lives, a doctor that writes without the lock, or a count that betrays a lost commit is rejected.",
+        "note": "Trusts TLC, kernel flock semantics (locks belong to open file descriptions, so two handles in one process conflict like two processes; a cross-process probe is sampled), and the probe. Exhaustive for 2 processes and <= 3 commits; 3 handles in random schedules. Blocking Memvid::open (10 s retry) is exercised only in the thorough tier.",
+        "design_ref": "DESIGN.md §4.4, §6 C17",
+    },
     "C05": {
         "engine": "walring",
         "technique": "TLA+ cell-level model (WalRing) exhaustively checked by TLC + refinement to WalAbs; every TLC transition replayed on the real EmbeddedWal; recorded real runs validated against WalAbs by TLC",
